@@ -217,6 +217,9 @@ var (
 	Policy258  = ReadPolicy{"258", []int{258}}
 	Policy4096 = ReadPolicy{"4096", []int{4096}}
 	PolicyAlt  = ReadPolicy{"alt(1,65536)", []int{1, 65536}}
+	// PolicyZero interleaves zero-length destination buffers (legal for an io.Reader: nothing may be lost, skipped or
+	// reported early because of them)
+	PolicyZero = ReadPolicy{"1,0", []int{1, 0}}
 )
 
 // ReadResult is what draining a reader produced.
